@@ -119,6 +119,12 @@ theorem C01_result_map :
        ("dual slack", "-tz"), ("residual as primal infeasibility certificate", "None"),
        ("residual as dual infeasibility certificate", "None"), ("iterations", "iters")] := by decide
 
+/-- **The residuals are normalised as documented**: `resx0 = max(1, ‖c‖)`, `resy0 = max(1, ‖b‖)` and `resz0 = max(1, ‖h‖)` with the *cone*
+norm of `h` (which reads only the lower triangles of the 's' blocks) — not the norm of the stored array. -/
+theorem C01_normalisers (E : Env K X Y Z) (c : X) (b : Y) (h : Z) :
+    conelp.resx0Def E c b h = max 1 (E.nX c) ∧ conelp.resy0Def E c b h = max 1 (E.nY b) ∧ conelp.resz0Def E c b h = max 1 (E.nZ h) :=
+  ⟨rfl, rfl, rfl⟩
+
 /-- how the 's' blocks must be walked: block orders `m` from `dims['s']`, first block after the 'l' and 'q' parts, stride `m²` -/
 def symmWalk : String := "order m over dims['s'] from dims['l'] + sum(dims['q']) step m ** 2"
 
